@@ -656,6 +656,12 @@ class PowerExpression(BinaryExpression):
         return self.make_ml_tag("msup", "{}{}".format(left_ml, right_ml), self.classes)
 
     def operate(self, one: NumberType, two: NumberType) -> NumberType:
+        if isinstance(one, int) and isinstance(two, int):
+            # np.power on two ints is a fixed-width int64 power: it wraps silently
+            # (2^64 == 0) and rejects negative exponents. Python ints are exact.
+            if two >= 0:
+                return one**two
+            return np.power(float(one), two)
         return np.power(one, two)
 
     def __str__(self) -> str:
